@@ -341,6 +341,186 @@ def run_scenario(brs, n, bs, drv, rq, copy_buf=True, share=False, shape="pair", 
     return per, values
 
 
+# ---- nested Splits (spec/IsolationNest.tla): a node is a branch (leaf) or {"end": "split", "muts": prefix, "ibs", "sub"}
+def is_split(node):
+    return node["end"] == "split"
+
+
+def type_of(node):
+    """IsolationNestSem!TypeOf (lena.core.split._get_seq_with_type)"""
+    if not is_split(node):
+        return {"seq": "sequence", "store": "fc", "count": "fc", "fr": "fr"}[node["end"]]
+    ts = set(type_of(c) for c in node["sub"])
+    return "fc" if ts == {"fc"} else "fr" if ts == {"fr"} else "sequence"
+
+
+def leaves_of(nodes):
+    out = []
+    for n in nodes:
+        out.extend(leaves_of(n["sub"]) if is_split(n) else [n])
+    return out
+
+
+def depth_of(node):
+    return 1 + max(depth_of(c) for c in node["sub"]) if is_split(node) else 0
+
+
+def build_node(node, counter, shared=None, wrap=False):
+    """the real sequence of a node; leaves are numbered depth first (counter: a one-element list).
+    wrap: a nested Split without prefix elements is put into an explicit Sequence / FillComputeSeq
+    instead of being passed bare"""
+    import lena.core
+    if not is_split(node):
+        counter[0] += 1
+        return build_branch(counter[0], node, shared)
+    subs = [build_node(c, counter, shared, wrap) for c in node["sub"]]
+    split = lena.core.Split(subs, bufsize=None if node["ibs"] == NONE else node["ibs"])
+    pre = [build_mut(mu, shared) for mu in node["muts"]]
+    t = type_of(node)
+    if t == "fr":
+        assert not pre       # FillRequestSeq.fill is not implemented in lena
+        return split
+    if not pre and not wrap:
+        return split
+    if t == "fc":
+        return lena.core.FillComputeSeq(*(pre + [split]))
+    return lena.core.Sequence(*(pre + [split]))
+
+
+def run_tree(root, n, bs, drv, rq, share=False, shape="pair", cls="dict"):
+    """Execute one scenario of IsolationNest on the real Split / Zip: root = the sequences of the outermost
+    one.  Returns like run_scenario, per LEAF."""
+    import lena.core
+    import lena.flow
+    shared = {} if share else None
+    counter = [0]
+    seqs = [build_node(node, counter, shared, wrap=share) for node in root]
+    values = [flow_value(j + 1, shape, cls) for j in range(n)]
+    outs = []
+
+    def take(item):
+        if not (isinstance(item, tuple) and len(item) == 3 and item[0] == "B"):
+            raise ValueError("untagged output %r" % (item,))
+        outs.append((item[1], pure(item[2]), item[2]))
+
+    def take_zipped(gen):
+        for tup in gen:
+            if not isinstance(tup, tuple) or len(tup) != len(seqs):
+                raise ValueError("unexpected Zip output %r" % (tup,))
+            for item in tup:
+                take(item)
+
+    if drv == "run":
+        s = lena.core.Split(seqs, bufsize=None if bs == NONE else bs)
+        for item in s.run(iter(values)):
+            take(item)
+    elif drv == "fill":
+        s = lena.core.Split(seqs)
+        for v in values:
+            s.fill(v)
+        for item in s.compute():
+            take(item)
+    elif drv == "fillreq":
+        s = lena.core.Split(seqs)
+        for v in values:
+            s.fill(v)
+            if rq:
+                for item in s.request():
+                    take(item)
+        for item in s.request():
+            take(item)
+    elif drv == "zip":
+        z = lena.flow.Zip(seqs)
+        if type_of(root[0]) == "fr":
+            for v in values:
+                z.fill(v)
+                if rq:
+                    take_zipped(z.request())
+            take_zipped(z.request())
+        else:
+            for v in values:
+                z.fill(v)
+            take_zipped(z.compute())
+    else:
+        raise ValueError(drv)
+    per = {}
+    for b, snap, obj in outs:
+        per.setdefault(b, []).append((snap, pure(obj)))
+    return per, values
+
+
+def tree_key(nodes):
+    def one(n):
+        m = "+".join(mu["t"] + (mu["key"] or mu["nk"] or "") for mu in n["muts"])
+        if is_split(n):
+            return "Split[%s>%s]" % (m, tree_key(n["sub"]))
+        return "%s(%s)" % (n["end"], m)
+    return "|".join(one(n) for n in nodes)
+
+
+def tree_size(nodes):
+    return sum(1 + len(n["muts"]) + tree_size(n["sub"]) for n in nodes)
+
+
+def rand_prefix(rnd):
+    """prefix elements in front of a nested Split: no Count, no Variable (IsolationNestSem!PrefixOK)"""
+    muts = []
+    for _ in range(rnd.choice([0, 0, 1, 1, 2])):
+        for _try in range(20):
+            mu = rand_mut(rnd, "store")
+            if mu["t"] not in ("var", "vart", "cnt", "setv"):
+                muts.append(mu)
+                break
+    return muts
+
+
+def rand_node(rnd, depth, kind):
+    """a well-formed node (IsolationNestSem!WF) of type kind: "sequence" | "fc" | "fr" """
+    def leaf(end):
+        br = rand_branch(rnd, [end])
+        br["stop"] = NONE
+        return dict(br, ibs=NONE, sub=[])
+    if depth == 0 or rnd.random() < 0.35:
+        return leaf({"sequence": "seq", "fc": rnd.choice(["store", "count"]), "fr": "fr"}[kind])
+    nsub = rnd.randint(1, 3)
+    if kind == "sequence":
+        kinds = [rnd.choice(["sequence", "sequence", "fr"]) for _ in range(nsub)]
+        if "sequence" not in kinds:
+            kinds[rnd.randrange(nsub)] = "sequence"
+    else:
+        kinds = [kind] * nsub
+    sub = [rand_node(rnd, depth - 1, k) for k in kinds]
+    node = {"muts": [] if kind == "fr" else rand_prefix(rnd), "end": "split", "stop": NONE, "name": "",
+            "ibs": rnd.choice([NONE, 1, 2, 3]) if kind == "sequence" else NONE, "sub": sub}
+    if type_of(node) != kind:
+        # all sequences of a run-type Split turned out fill/request leaves ...: not the kind asked for
+        return rand_node(rnd, depth, kind)
+    return node
+
+
+def rand_tree(rnd):
+    """a random scenario of nested Splits beyond the exhaustive bounds: depth <= 3, <= 3 sequences per Split"""
+    drv = rnd.choice(["run", "run", "run", "fill", "fillreq"])
+    nb = rnd.randint(1, 3)
+    if drv == "run":
+        kinds = [rnd.choice(["sequence", "sequence", "fc", "fr"]) for _ in range(nb)]
+        bs, rq = rnd.choice([NONE, 1, 2, 3, 5]), 0
+    elif drv == "fill":
+        kinds, bs, rq = ["fc"] * nb, NONE, 0
+    else:
+        kinds, bs, rq = ["fr"] * nb, NONE, rnd.randint(0, 1)
+    root = [rand_node(rnd, 3, k) for k in kinds]
+    if not any(is_split(n) for n in root):
+        j = rnd.randrange(nb)
+        for _try in range(50):
+            node = rand_node(rnd, 3, kinds[j])
+            if is_split(node):
+                root[j] = node
+                break
+    return {"root": root, "N": rnd.randint(0, 6), "bs": bs, "drv": drv, "rq": rq, "shape": "pair",
+            "cls": rnd.choice(["dict", "dict", "Context", "OrderedDict", "defaultdict", "UserDict"])}
+
+
 def brs_key(brs):
     def one(br):
         m = "+".join(mu["t"] + (mu["key"] or mu["nk"] or "") for mu in br["muts"])
